@@ -19,7 +19,7 @@ REQUIRED = [f"contract:NonnegMean.{t}" for t in nn.TESTS] + ["stratum:len1", "st
                                                              "stratum:m_above_u", "stratum:m_below_0",
                                                              "random_order_false"]
 ASSUMPTIONS = ["samples are numpy arrays of dyadic floats in [0,u]; documented exclusions: finite-N SPRT with "
-               "random_order=False (raises by design), Kaplan-Markov/Wald with finite N, optimal_comparison with u<=1",
+               "random_order=False (raises by design), Kaplan-Markov/Wald with finite N",
                "numpy/pandas are trusted"]
 N_CASES = {"quick": 64000, "thorough": 2000000}
 
@@ -35,9 +35,6 @@ def _post(testname):
             rec.count("contract_pre_false")
             return
         estim = getattr(self.estim, "__name__", "")
-        if testname == "alpha_mart" and estim == "optimal_comparison" and u <= 1:
-            rec.count("contract_pre_false")
-            return
         tag = testname
         if testname == "alpha_mart":
             tag += ":" + estim
